@@ -14,7 +14,9 @@ pub fn check_text(text: &str, origin: &Value, stats: &mut Stats) -> Result<Optio
         return Ok(None);
     };
     if !once.ends_with('\n') || once.ends_with("\n\n") {
-        return Err(Fail::new("trailing-newline", "output ends with exactly one newline", format!("{:?}", once.chars().rev().take(6).collect::<String>())).with(case()));
+        let unterminated = scan::comments(text).iter().any(|c| c.unterminated);
+        let sig = if unterminated { "trailing-newline[unterminated-block-comment-at-eof]" } else { "trailing-newline" };
+        return Err(Fail::new(sig, "output ends with exactly one newline", format!("{:?}", once.chars().rev().take(6).collect::<String>())).with(case()));
     }
     let mut prev = once.clone();
     let mut seen = vec![once.clone()];
@@ -24,7 +26,35 @@ pub fn check_text(text: &str, origin: &Value, stats: &mut Stats) -> Result<Optio
                 if round == 2 && next != once {
                     let la: Vec<&str> = once.lines().collect();
                     let lb: Vec<&str> = next.lines().collect();
-                    return Err(Fail::new("not-idempotent", "fmt(fmt(x)) == fmt(x)", f::first_diff(&la, &lb)).with(case()));
+                    // classify *how* the second pass differs (each class is one root cause)
+                    let verbatim_comments = f::verbatim_slices(text).iter().any(|s| !f::comments_only(&f::atom_stream(s)).is_empty());
+                    let has_multiline_block = scan::comments(&once).iter().any(|c| once[c.start..c.end].contains('\n') && matches!(c.kind, scan::CommentKind::Block));
+                    let same_len = la.len() == lb.len();
+                    let only_trailing = same_len && la.iter().zip(lb.iter()).all(|(x, y)| x.trim_end() == y.trim_end());
+                    let only_indent = same_len && la.iter().zip(lb.iter()).all(|(x, y)| x.trim() == y.trim());
+                    let nonblank = |v: &Vec<&str>| v.iter().filter(|l| !l.trim().is_empty()).map(|l| l.to_string()).collect::<Vec<_>>();
+                    let only_blank = nonblank(&la) == nonblank(&lb);
+                    let class = if verbatim_comments {
+                        "comment-inside-verbatim-duplicated"
+                    } else if only_trailing {
+                        "trailing-whitespace"
+                    } else if has_multiline_block && only_indent && f::atom_stream(&once) == f::atom_stream(&next) {
+                        "block-comment-continuation-indent"
+                    } else if only_blank {
+                        "blank-lines"
+                    } else if only_indent {
+                        "indentation"
+                    } else if f::atom_stream(&once) == f::atom_stream(&next) {
+                        "line-breaks"
+                    } else {
+                        "content"
+                    };
+                    if std::env::var_os("VERIF_SURVEY").is_some() {
+                        stats.count(&format!("survey-not-idempotent:{class}"));
+                        return Ok(None);
+                    }
+                    let sig = format!("not-idempotent[{class}]");
+                    return Err(Fail::new(sig, "fmt(fmt(x)) == fmt(x)", f::first_diff(&la, &lb)).with(case()));
                 }
                 if next != prev && seen.contains(&next) {
                     return Err(Fail::new("fmt-cycles", "convergence", format!("round {round} returns to an earlier text")).with(case()));
@@ -104,13 +134,25 @@ pub fn run(ctx: &Ctx) -> Report {
             // canonical: horizontal respacing within lines does not matter
             let mut t = Tape::new(if tape.len() > 12 { &tape[tape.len() - 12..] } else { tape });
             let x2 = respace(&mut t, &c.text);
-            if x2 != c.text {
+            // verbatim payloads keep their spacing by design: pairs are only formed without them
+            if x2 != c.text && f::verbatim_slices(&c.text).is_empty() {
                 if let FmtOutcome::Ok(f2) = drive::format_text(&x2) {
                     stats.eval();
                     if f2 != once {
                         let la: Vec<&str> = once.lines().collect();
                         let lb: Vec<&str> = f2.lines().collect();
-                        return Err(Fail::new("spacing-not-canonical", "sources differing only in horizontal spacing format identically", f::first_diff(&la, &lb))
+                        let has_multiline_block = scan::comments(&once).iter().any(|c| once[c.start..c.end].contains('\n') && matches!(c.kind, scan::CommentKind::Block));
+                        let only_indent = la.len() == lb.len() && la.iter().zip(lb.iter()).all(|(x, y)| x.trim() == y.trim());
+                        let sig = if has_multiline_block && only_indent && f::atom_stream(&once) == f::atom_stream(&f2) {
+                            "spacing-not-canonical[block-comment-continuation-indent]"
+                        } else {
+                            "spacing-not-canonical"
+                        };
+                        if std::env::var_os("VERIF_SURVEY").is_some() {
+                            stats.count(&format!("survey-{sig}"));
+                            return Ok(());
+                        }
+                        return Err(Fail::new(sig, "sources differing only in horizontal spacing format identically", f::first_diff(&la, &lb))
                             .with(json!({"origin": c.origin, "text": c.text, "respaced": x2})));
                     }
                     stats.count("respaced-pair");
